@@ -324,6 +324,9 @@ func genC33(seed uint64, tier string) *Case {
 		return v
 	}
 	for i := 0; i < n; i++ {
+		if g.Bool(0.08) {
+			c.Steps = append(c.Steps, Step{Op: "clockjump", U: []uint64{200, 70000, 1 << 33, 1 << 62}[g.Intn(4)]})
+		}
 		switch g.Intn(4) {
 		case 0, 1:
 			lim := c.P["uel"]
@@ -382,6 +385,16 @@ func execC33(r *Run) {
 	for idx, s := range r.C.Steps {
 		r.curStep = idx
 		switch s.Op {
+		case "clockjump":
+			// a peer's event and query from a long-running cluster: the node's clocks jump,
+			// and every time it stamps from now on takes more bytes on the wire
+			c.DeliverMsg(&Msg{To: 0, Buf: wEnc(mtUserEvent, &wUserEvent{LTime: s.U, Name: "old-cluster", Payload: []byte("x")})})
+			c.DeliverMsg(&Msg{To: 0, Buf: wEnc(mtQuery, &wQuery{LTime: s.U, ID: 7, Addr: net.ParseIP(origin.IP).To4(), Port: uint16(origin.Port), SourceNode: origin.Name,
+				Flags: qfNoBroadcast, Timeout: time.Second, Name: "old-cluster", Payload: []byte("x")})})
+			drainAll(c, 0)
+			c.Drain(0)
+			c.Bag = nil
+			r.Fault("clock-jump")
 		case "uev":
 			name := strings.Repeat("n", s.I)
 			payload := bytes.Repeat([]byte{0xAB}, s.J)
